@@ -148,6 +148,8 @@ struct World {
     gmap: (u32, u32, u32),
     maps_seen: Vec<(u32, u32, u32)>,
     any_mount_map: bool,
+    /// the scenario's instances are configured with set_remove_pseudo_root() (the restored one too: it is not saved)
+    rmroot: bool,
 }
 
 fn canon(path: &str) -> String {
@@ -573,7 +575,13 @@ impl World {
             }
         }
         ev["len"] = json!(img.len());
-        let fresh = Arc::new(Vfs::new(VfsOptions::default()));
+        let fresh = {
+            let mut v = Vfs::new(VfsOptions::default());
+            if self.rmroot {
+                v.set_remove_pseudo_root();
+            }
+            Arc::new(v)
+        };
         let f2 = fresh.clone();
         let mut img2 = img.clone();
         let r = std::panic::catch_unwind(std::panic::AssertUnwindSafe(move || f2.restore_from_bytes(&mut img2)));
@@ -1073,6 +1081,7 @@ impl World {
         opts.no_open = o["no_open"].as_bool().unwrap_or(true);
         opts.no_opendir = o["no_opendir"].as_bool().unwrap_or(true);
         let rmroot = o["remove_pseudo_root"].as_bool().unwrap_or(false);
+        self.rmroot = rmroot;
         self.new_vfs(opts, rmroot);
         let kind = sc["kind"].as_str().unwrap_or("plain").to_string();
         self.emit(json!({"e": "Reset", "kind": kind, "pair": sc["pair"].as_u64().unwrap_or(0), "cut": sc["cut"].as_i64().unwrap_or(-1), "id": sc["id"],
@@ -1283,6 +1292,7 @@ fn main() {
         gmap: (0, 0, 0),
         maps_seen: Vec::new(),
         any_mount_map: false,
+        rmroot: false,
     };
     let text = std::fs::read_to_string(&args[4]).expect("scenario file");
     let mut n = 0;
